@@ -47,6 +47,9 @@ def run(ctx):
     _shape(ctx, m)
     _ambient(ctx, m)
     _constructors(ctx, m)
+    # invalid tokens must reach the grammar to be refused: the text is not rewritten on the way (shared with C11.D8)
+    from . import c11
+    c11._text_chain(ctx, m, rule='C12.D3')
 
 
 PURE_MODULES = ('base64', 'binascii', 'six', 're', 'datetime', 'math', 'numbers', 'copy')
